@@ -72,6 +72,14 @@ def register(R):
     x = it.to_real(a[0])
     return VReal(sqrt_fn(x.t), z3.Or(x.nan, x.t < 0))
 
+  @R.spec
+  def isnan(it, a, k):
+    return VBool(it.to_real(a[0]).nan)
+
+  @R.spec
+  def val(it, a, k):           # payload of a float, meaningful when it is not NaN
+    return VReal(it.to_real(a[0]).t, False)
+
   # math_utils: contracts proved against their bodies (np.divide(where=) etc. by A3), then used modularly
   R.add(Contract(f'{MU}::safe_divide', P, types=dict(a='rreal', b='rreal'), ret='rreal',
                  ensures=['result == sdiv(a, b)'], note='0 when the denominator is 0'))
@@ -104,6 +112,32 @@ def register(R):
         f'{CL}::_ConfusionMatrix.derive_metric', P, variant=member,
         types=dict(self='_ConfusionMatrix', metric=f'const:{member!r}', average='none'), ret='rreal',
         ensures=['result == ' + spec.replace('cm.', 'self.')], bounded='bounded_rates'))
+
+  # ---- rolling statistics whose value is a closed formula of the accumulated sums --------------------------------
+  RS = 'ml_metrics/_src/aggregates/rolling_stats.py'
+  TJ = ['sum_y_true', 'sum_y_pred', 'sum_neg_y_true', 'sum_neg_y_pred']
+  R.cls('R2Tjur', {f: 'rreal' for f in TJ})
+  R.cls('R2TjurRelative', {f: 'rreal' for f in TJ})
+  R.cls('SymmetricPredictionDifference', dict(num_samples='nat', sum_half_pointwise_rel_diff='rreal'))
+  R.add(Contract(
+      f'{RS}::R2Tjur.result', P, types=dict(self='R2Tjur'), ret='real',
+      # Tjur's D: mean fitted probability of the positives minus that of the negatives; undefined without both classes
+      ensures=['isnan(result) == (self.sum_y_true == 0 or self.sum_neg_y_true == 0)',
+               'implies(not isnan(result), val(result) == self.sum_y_pred / self.sum_y_true - self.sum_neg_y_pred / self.sum_neg_y_true)'],
+      bounded='bounded_rolling'))
+  R.add(Contract(
+      f'{RS}::R2TjurRelative.result', P, types=dict(self='R2TjurRelative'), ret='real',
+      # ratio of the two means
+      ensures=['isnan(result) == (self.sum_y_true == 0 or self.sum_neg_y_pred == 0)',
+               'implies(not isnan(result) and self.sum_neg_y_true != 0,'
+               ' val(result) * (self.sum_neg_y_pred / self.sum_neg_y_true) == self.sum_y_pred / self.sum_y_true)'],
+      bounded='bounded_rolling'))
+  R.add(Contract(
+      f'{RS}::SymmetricPredictionDifference.result', P, types=dict(self='SymmetricPredictionDifference'), ret='real',
+      # mean of 2|x-y|/|x+y|
+      ensures=['isnan(result) == (self.num_samples == 0)',
+               'implies(self.num_samples > 0, val(result) * self.num_samples == 2 * self.sum_half_pointwise_rel_diff)'],
+      bounded='bounded_rolling'))
 
   R.bounded_checks[P] = [
       ('bounded_rates', 'every ConfusionMatrixMetric vs independent re-implementation over all counts <= 4 (5 thorough)'),
